@@ -1,12 +1,61 @@
 CFG = {
     "modules": ["Parsley.Props.C04"],
-    "theorems": [],
-    "partial": {},
-    "n": {"quick": 300, "thorough": 5000},
+    "theorems": [
+        "Parsley.C04.prev_cycle_or_oob_rejected", "Parsley.C04.root_from_newest", "Parsley.C04.merge_is_newest_wins_partial",
+        "Parsley.C04.infoOf_inFile",
+        "Parsley.LoaderChain.prev_revisit_or_oob_rejected", "Parsley.LoaderChain.prev_chain_step_rejected",
+        "Parsley.LoaderChain.xrefLoop_fuel_stable", "Parsley.LoaderChain.getXrefInfo_panic_origin",
+        "Parsley.LoaderChain.chain_length_bounded", "Parsley.LoaderChain.getXrefInfo_merges_chain",
+        "Parsley.LoaderChain.merge_first_wins", "Parsley.LoaderChain.addEnts_mem", "Parsley.LoaderChain.addEnts_keys",
+        "Parsley.LoaderChain.stable_gen_first_per_number",
+        "Parsley.C04.free_with_bumped_generation_witness", "Parsley.C04.objstm_member_redefined_witness",
+    ],
+    "partial": {
+        "merge_is_newest_wins_partial":
+            "FULL STATEMENT WANTED: after loading a history every object identifier resolves to its definition in the newest revision that mentions it, "
+            "freed ones are undefined. PROVED for all inputs on which get_xref_info succeeds: the entries kept are exactly the first occurrence of every "
+            "(number, generation) along the /Prev chain, newest first (Chain predicate = the sections actually read); if generations are stable per "
+            "number, per object NUMBER exactly the newest entry survives, a number whose newest entry is free is not loaded from any offset, and an "
+            "in-use one is loaded from its newest offset and no other. EXCLUDED (real defects, known findings with witness theorems, not proof gaps): "
+            "histories in which a number changes generation (#29) and object-stream members mentioned again later (#30). NOT composed by a theorem: "
+            "the step from the collected entries to the context (C03's load_defines_exactly_partial covers direct objects) - decided by the oracle.",
+        "(fuel)": "xrefLoop takes a fuel |file|+1; xrefLoop_fuel_stable/getXrefInfo_fuel_stable: more fuel never changes the result, getXrefInfo_panic_origin: "
+            "every panic outcome originates in a component parser, never in the fuel branch; chain_length_bounded: at most |file| sections are read",
+    },
+    "n": {"quick": 1000, "thorough": 20000},
     "exhaustive": {"quick": False, "thorough": False},
     "shrink": False,
-    "rule": "tbd",
-    "trusted_base": COMMON_TB,
-    "assumptions": [],
+    "rule": "corpus (hand-built: redefinition, free with stable generation, added object + moved root, /Prev to itself, /Prev beyond the file, two sections "
+            "pointing at each other; smallest generated instances of both known findings) + per seed one history from the spec-side generator: base "
+            "revision as in C03 (any layout) followed by 1-3 (thorough: up to 7 for a third of the cases) incremental updates, each with 1-3 edits (redefine "
+            "/ free / re-add an existing number, each number at most once per revision) plus 0-2 new objects (optionally in a new object stream), its own "
+            "layout (table / stream / hybrid in any mix), the root optionally moved to another live object; /Prev written 10 digits wide. 8 families by "
+            "case index: 0-3 stable generations and untouched object-stream members; 4 generations may change (free with bump, re-use with next "
+            "generation); 5 object-stream members may be redefined or freed later; 6 one /Prev aimed at its own section, a newer section (cycle) or "
+            "|file|+{0,1,1000} (must be rejected); 7 the newest /Prev skips revisions (the skipped ones must not count). Every 3rd history also with one "
+            "corruption (correspondence and no panic). Oracle = DocSpec.resolve over the revisions on the chain. Classifiers decided on the case: "
+            "'generation-changed' = some number is mentioned with two generations; 'objstm-member-touched-later' = a member number is mentioned by a later "
+            "revision; anything else that disagrees is 'wrong-merge' and reported. non-trivial = history of >= 500 bytes or corpus case; distinct by hash",
+    "trusted_base": COMMON_TB + [
+        "modelled, not verified: ParseBuffer views as byte lists with a view-relative cursor (C17), BTreeSet as a membership list",
+        "reused component models with their own correspondence checks: Prim/Obj (C02/C15/C16), Indirect (C05), Xref (C13), ObjStm (C14), Filters/Inflate (C06), Predictor (C07)",
+        "hook (feature verif): exit_log! unwinds with VerifExit instead of process::exit(1); PDFObjContext::verif_ids lists the defined identifiers",
+    ],
+    "assumptions": [
+        "the harness needs the hook patch pending_fixes/C03-00-hook-unwinding-exit-log.patch applied to /repo",
+        "updates do not edit infrastructure objects (length holders, object-stream containers, cross-reference stream objects)",
+    ],
 }
-LEVEL = {"design_ref": "DESIGN.md 3.C03/C04", "technique": "tbd", "text": "tbd"}
+LEVEL = {
+    "design_ref": "DESIGN.md 3.C03/C04",
+    "technique": "Lean 4 theorems about the /Prev loop of the loader model (induction on fuel with a chain predicate, list lemmas for the first-seen-wins "
+                 "merge, pigeonhole bound) + differential correspondence with the real parse_data + declarative oracle on generated edit histories",
+    "text": "Machine-checked for ALL inputs: a /Prev chain that revisits an offset (itself or any section already read) or points at or beyond the end "
+            "of the file is rejected, an accepted chain reads at most |file| sections and extra fuel never changes the result; the reported root is "
+            "the newest section's /Root; the entries kept are the first occurrence of every (number, generation) newest-first, and under stable "
+            "generations exactly the newest entry per object number survives (freed numbers are not loaded, in-use ones are loaded from their newest "
+            "offset). The two cases the code gets wrong are recorded as known findings with executable classifiers and witness theorems evaluated on "
+            "concrete files: a free entry with the standard's generation bump leaves the object defined (#29), and an object-stream member redefined "
+            "later is bound to its OLD value while its stream neighbours are lost (#30). The end-to-end statement is decided on the real code by the "
+            "oracle over generated histories (add / redefine / free, mixed table and stream sections, all /Prev targets).",
+}
